@@ -1397,6 +1397,22 @@ def check_copy_case(case):
     why = oracle_transform(normalise_labels(obs_e), normalise_labels(obs_c2), amap)
     if why and not why.startswith("geometry-undefined"):
         return "copy-aliased: the transformed copy is not the image of the original: " + why
+    # the other direction: the original has been evaluated (whatever it caches is valid), a copy is taken and left alone,
+    # the original is transformed and evaluated again - the copy still is what it was
+    try:
+        with warnings.catch_warnings():
+            warnings.simplefilter("ignore")
+            e4 = mk_entity(spec)
+            observe(e4, spec[0])
+            c4 = e4.copy()
+            transform_entity(e4, [["translate", [-2.0, 1.0, 0.5]], ["rotate", 0.75, [1.0, 2.0, -1.0], [0.5, 0.0, 1.0]]], "method")
+            observe(e4, spec[0])
+            obs_c4 = observe(c4, spec[0])
+    except Exception as ex:
+        return "exception: %s: %s" % (type(ex).__name__, str(ex)[:150])
+    why = oracle_transform(normalise_labels(obs_e), normalise_labels(obs_c4), I)
+    if why and not why.startswith("geometry-undefined"):
+        return "copy-shares: transforming (and evaluating) the original changed an untouched copy: " + why
     return None
 
 
